@@ -43,6 +43,8 @@ class Sim:
         self.max_solves = cfg.get("max_solves", 300)
         self.max_wall = cfg.get("max_wall", 60.0)
         self.budget_exceeded = False
+        if not hasattr(self, "ever_exceeded"):
+            self.ever_exceeded = False  # sticky for the whole process segment (reset() may be called often)
         import time as _t
 
         self._t0 = _t.monotonic()
@@ -185,6 +187,7 @@ class SolverProxy:
 
             if SIM.solve_index >= SIM.max_solves or _t.monotonic() - SIM._t0 > SIM.max_wall:
                 SIM.budget_exceeded = True
+                SIM.ever_exceeded = True
         if SIM.budget_exceeded:
             self._real_status = REAL.Solver.INFEASIBLE
             return REAL.Solver.INFEASIBLE
